@@ -14,6 +14,7 @@ import GluonModel.Proofs.Marshal
 import GluonModel.Proofs.MarshalFull
 import GluonModel.Proofs.MarshalTypes
 import GluonModel.Proofs.MarshalDe
+import GluonModel.Proofs.MarshalMap
 
 namespace GluonModel.Props.C11
 open GluonModel.Marshal GluonModel.Marshal.Proofs
@@ -62,6 +63,23 @@ theorem get_push (c : TCode) (v : Val) (h : WT c v = true) : get c (push v) = so
 theorem map_is_spine (kvs : List (String × Val)) (h : sortedKeys kvs = true) :
     push (.map kvs) = (spine (pushKV kvs)).toGV := by
   simp [push, buildMap_sorted (pushKV kvs) (sortedG_pushKV kvs h)]
+
+/-- **Maps built or modified by gluon code**: for EVERY search tree `Tip | Bin k v l r` (any shape —
+    not only the right spines Rust itself pushes) whose values are well-typed, `from_gluon_map` returns
+    exactly the in-order listing: all entries of the tree, none dropped, none twice.  (`get_push` for
+    `BTreeMap` is the spine special case.) -/
+theorem get_map_inorder (c : TCode) (t : VTree) (hb : t.isBST)
+    (hv : t.all (fun _ v => WT c v = true)) :
+    get (.map c) t.toTree.toGV = some (.map t.inorder) := by
+  have h := fromMap_bst (fun x => get c x) t [] [] hb
+    (VTree.all_imp (fun _ v h => get_push_full c v h) t hv) (by simp) (by simp)
+  simp at h
+  simp [Marshal.get, h]
+
+/-- and that listing is the key-sorted association list (what a `BTreeMap` holds). -/
+theorem map_inorder_sorted (t : VTree) (hb : t.isBST) :
+    t.inorder.Pairwise (fun a b => a.1 < b.1) :=
+  inorder_sorted t hb
 
 /-! ## Gluon observes the corresponding value: constructor tags and shapes -/
 
@@ -265,6 +283,10 @@ example : gtypeOf .char ≠ gtypeOf (.int .i64) ∧ gtypeOf .u8 ≠ gtypeOf (.in
 example : getGlobal (.struct [("x", .int .i32), ("y", .f64)]) (.struct [("y", .f64), ("x", .int .i32)])
     = .wrongType := by decide
 example : getGlobal (.int .u16) (.int .i64) = .ok := by decide
+-- a balanced tree with entries in both subtrees (the shape a mis-indexed left child would lose)
+def balanced : VTree := .bin "m" (.int .i32 2) (.bin "c" (.int .i32 1) .tip (.bin "d" (.int .i32 5) .tip .tip)) (.bin "x" (.int .i32 3) .tip .tip)
+example : get (.map (.int .i32)) balanced.toTree.toGV =
+    some (.map [("c", .int .i32 1), ("d", .int .i32 5), ("m", .int .i32 2), ("x", .int .i32 3)]) := by rfl
 example : push (.int .u64 18446744073709551615) = .int (-1) := by rfl
 example : get (.int .u64) (.int (-1)) = some (.int .u64 18446744073709551615) := by rfl
 example : inRange .i64 (-9223372036854775808) = true := by decide
